@@ -583,6 +583,71 @@ func concurrent(b balancer, ncalls int) h.Scenario {
 	}}
 }
 
+// grown: a server is added to the client (SetURI) while calls are in flight through the least-active balancer.
+// The calls in flight stay counted: the next call goes to the new, idle server, and when everything has ended
+// the counters are zero. Every order of finishing the calls is explored.
+func grown() h.Scenario {
+	name := "history/leastactive/server-added-while-calls-are-in-flight"
+	return h.Scenario{Name: name, Quick: 2, Thorough: 3, Run: func(ch vs.Chooser, trace bool) (*vs.Sched, h.Outcome) {
+		var o h.Outcome
+		var hist []string
+		s := vs.Run(ch, vs.Config{Trace: trace}, func() {
+			client := core.NewClient(urlsFor(2)...)
+			b := lb.NewLeastActiveLoadBalance()
+			type inflight struct {
+				server  int
+				release chan struct{}
+				done    chan struct{}
+			}
+			start := func() *inflight {
+				fl := &inflight{release: make(chan struct{}), done: make(chan struct{}, 1)}
+				entered := make(chan int)
+				vs.Go(func() {
+					b.Handler(newCtx(client), []byte("r"), func(ctx context.Context, request []byte) ([]byte, error) {
+						vs.Send(entered, indexOf(core.GetClientContext(ctx).URL.String()))
+						vs.Recv(fl.release)
+						return []byte("ok"), nil
+					})
+					vs.Send(fl.done, struct{}{})
+				})
+				fl.server = vs.Recv(entered)
+				hist = append(hist, fmt.Sprintf("start->s%d", fl.server))
+				return fl
+			}
+			calls := []*inflight{start(), start()} // one on each of the two servers
+			client.SetURI(urlsFor(3)...)
+			hist = append(hist, "SetURI(s0,s1,s2)")
+			third := start()
+			if third.server != 2 {
+				o.Viol = append(o.Viol, h.V{Sig: "leastactive|not-least-active", What: fmt.Sprintf("%s after %v: s0 and s1 have a call in flight each, the new server s2 none; the call went to s%d", name, hist, third.server)})
+			}
+			calls = append(calls, third)
+			for len(calls) > 0 {
+				k := vs.Choose(len(calls), "finish-which")
+				fl := calls[k]
+				calls = append(calls[:k:k], calls[k+1:]...)
+				vs.Send(fl.release, struct{}{})
+				vs.Recv(fl.done)
+				hist = append(hist, fmt.Sprintf("finish(s%d)", fl.server))
+				for _, a := range b.VerifActives() {
+					if a < 0 {
+						o.Viol = append(o.Viol, h.V{Sig: "leastactive|in-flight-counters-wrong", What: fmt.Sprintf("%s after %v: in-flight counters %v", name, hist, b.VerifActives())})
+						return
+					}
+				}
+			}
+			for _, a := range b.VerifActives() {
+				if a != 0 {
+					o.Viol = append(o.Viol, h.V{Sig: "leastactive|in-flight-not-zero-at-end", What: fmt.Sprintf("%s after %v: in-flight counters %v", name, hist, b.VerifActives())})
+					break
+				}
+			}
+		})
+		o.Key = strings.Join(hist, " ")
+		return s, o
+	}}
+}
+
 // held: ncalls callers arrive together and every call stays in flight until all of them have been placed.
 // An atomic least-active balancer places each call on a server with the fewest calls in flight, so the
 // in-flight vector at that moment is balanced (largest and smallest count differ by at most one) - whatever
@@ -669,5 +734,6 @@ func main() {
 			scen = append(scen, held(b, 2), held(b, 3))
 		}
 	}
+	scen = append(scen, grown())
 	h.Main(ID, scen, nil, h.SeqPart{Name: "cycles", Shards: 32, Run: cycles})
 }
